@@ -289,13 +289,13 @@ class JobFileWriter:
                 # cylc.flow.config.WorkflowConfig.check_param_env_tmpls()
 
         # Handle '~':
-        match = re.match(r"^(~[^/\s]*/)(.*)$", value)
+        match = re.match(r"^(~[\w.+-]*/)(.*)$", value)
         if match:
             # ~foo/bar or ~/bar
             # write as ~foo/"bar" or ~/"bar"
             head, tail = match.groups()
             return '%s"%s"' % (head, tail)
-        elif re.match(r"^~[^\s]*$", value):
+        elif re.match(r"^~[\w.+-]*$", value):
             # plain ~foo or just ~
             # just leave unquoted as subsequent spaces don't
             # make sense in this case anyway
